@@ -6,13 +6,18 @@ HERE = os.path.dirname(os.path.dirname(os.path.abspath(__file__)))
 ALL = ["C%02d" % i for i in range(1, 21)]
 
 CLAIMED = {
+ "C10": dict(
+   technique="TLA+ model of the substitution protocols (ParamSubst.tla) checked exhaustively by TLC for every nesting and crash index within bounds; TLC state graph and simulated behaviours replayed on the real PureFunction/_Jac/debug objects; hook-recorded executions of every functional with a crash injected at evaluation k validated by TLC against Trace_ParamSubst.tla",
+   text="TLC explores every interleaving of substitutions, Jacobian-operator parameter substitution, debug and state-change blocks, user-function evaluations and an exception raised at any evaluation index (5 aliasing patterns, nesting depth <= 3-4) and checks Quiescent (object, Parameter registration order, stacks, flags exactly as before whenever no block is open), LIFO and that an evaluation sees the requested tensors; each deviation switch (missing finally, push after check, shared list) is shown to violate them. The binding is two-way: every edge of the graph is executed on real objects with the full projected state compared, and ~2000 (quick) recorded runs of all eight functionals x 6 representations x forward/backward/double-backward x crash index are accepted by TLC step by step. Tests only sample the no-failure path.",
+   design_ref="5.1, 6 (C10)",
+   note="Trusted: TLC/SANY, hooks pf.*/lo.*/em.probe (add-only, guarded), the independent object traversal of harness/vlib/substrace.py, the bounds. disable_state_change/debug blocks are observed at the end of a call only. Quick samples crash indices (first/last three, thirds); thorough takes every index."),
  "C20": dict(
    technique="TLA+ model (Packer.tla) checked exhaustively by TLC; TLC state graph and simulated behaviours replayed on the real Packer; recorded executions validated by TLC against Trace_Packer.tla",
    text="TLC enumerates every structure within the stated bounds (container kinds, nesting, aliasing patterns) and every order of method calls; the invariants ListingOK / RoundTripOK / ValidAccepted / InvalidRejected hold in all states; each edge of that graph is executed on the real Packer and its outcome compared field by field, and recorded executions on larger random structures are accepted by the trace specification. Unit tests sample a handful of structures; this covers all of them up to the bound and all call histories.",
    design_ref="5.3, 6 (C20)",
    note="Trusted: TLC/SANY, the projection functions of harness/props/c20.py (independent traversal, identity comparison), bounds of MC_Packer*.cfg. Containers shared between two positions are outside the model."),
 }
-HOOK_COMMITS = []
+HOOK_COMMITS = ["b53e553", "860e24d", "586f68a"]
 
 
 def main():
